@@ -95,6 +95,10 @@ def r04_1(ctx):
         if name == "vertical":
             seen.append(tuple(args))
             return vals[args[0]._name]
+        if name == "area" and isinstance(recv, Obj) and str(recv) == "class:IntegrateJordan":
+            # the per-curve area, which R04.2 ties to the integral of x dy over every segment
+            seen.append((args[0], 1, 0) + tuple(args[1:]) + tuple(kwargs.values()))
+            return vals[args[0]._name]
         return NotImplemented
     try:
         got = Runner(ctx, {fa.qname, fn.qname}, hook2).call_fn(fa, [S, 11])
@@ -143,22 +147,38 @@ def r04_2(ctx):
             out.bad(fn.qname, "the per-segment integrals are not simply added", where=fn.where(), detail=f"returns {got}")
         else:
             out.ok(fn.qname, f"sum over all segments of IntegratePlanar.{name}{extra}", where=fn.where())
+    # the per-segment area term must be the same Green form for straight and curved segments (the form the moments use:
+    # the integral of x dy); two different forms differ by d(xy)/2, which does not cancel on a curve that mixes them
     fa = ctx.fn("curve.IntegratePlanar.area")
-    C = Obj("C")
-    seen = []
+    from rules.C14 import Vec
+    via = {}
+    for label, C in (("straight", Obj("C1", degree=1, npts=2, ctrlpoints=(Vec(1, 2), Vec(4, 3)))),
+                     ("curved", Obj("C2", degree=2, npts=3, ctrlpoints=(Vec(1, 2), Vec(3, 5), Vec(4, 3))))):
+        seen = []
 
-    def hook2(rn, ev, call, name, recv, args, kwargs):
-        if name == "vertical":
-            seen.append(tuple(args))
-            return "V"
-        return NotImplemented
-    try:
-        got = Runner(ctx, set(), hook2).call_fn(fa, [C, 6])
-        ok = got == "V" and seen == [(C, 1, 0, 6)]
-        (out.ok if ok else out.bad)(fa.qname, "area = integral of x dy" if ok else f"area is not vertical(curve, 1, 0, nnodes): {seen}",
-                                    where=fa.where())
-    except (Undecided, Raised) as ex:
-        out.undecided(fa.qname, str(ex), where=fa.where())
+        def hook2(rn, ev, call, name, recv, args, kwargs):
+            if name == "vertical":
+                seen.append(tuple(args))
+                return "V"
+            if name == "isinstance":
+                return True
+            return NotImplemented
+        try:
+            got = Runner(ctx, set(), hook2).call_fn(fa, [C, 6])
+            via[label] = got == "V" and seen == [(C, 1, 0, 6)]
+        except (Undecided, Raised, TypeError, AttributeError) as ex:
+            via[label] = None
+            why = str(ex)
+    if via.get("straight") and via.get("curved"):
+        out.ok(fa.qname, "area = integral of x dy, for straight and curved segments alike", where=fa.where())
+    elif via.get("straight") is None or via.get("curved") is None:
+        out.undecided(fa.qname, f"per-segment area not interpretable: {why}", where=fa.where())
+    elif via["straight"] != via["curved"]:
+        out.bad(fa.qname, "straight and curved segments contribute to the area through different Green forms (their "
+                          "difference d(xy)/2 does not cancel on a curve that mixes both kinds)", where=fa.where(),
+                detail=f"through vertical(curve, 1, 0, nnodes): {via}")
+    else:
+        out.bad(fa.qname, "area is not vertical(curve, 1, 0, nnodes)", where=fa.where())
     return out
 
 
